@@ -53,6 +53,12 @@ def tool_scenarios(c):
         S.append({'kind': 'args', 'tool': 'asconsum', 'argv': ['-c', 'sums.txt'], 'files': {'sums.txt': list(line)}, 'tag': 'checkline%d' % n})
     for junk in (b'', b'\n', b'a', b'ab' * 31 + b'a', b'ab' * 32, b'ab' * 32 + b' ', b'ab' * 32 + b'  ', b'\xff' * 200, b'ab' * 40 + b'  x\n', b'0' * 5000):
         S.append({'kind': 'args', 'tool': 'asconsum', 'argv': ['-c', 'sums.txt'], 'files': {'sums.txt': list(junk)}, 'tag': 'checkjunk%d' % len(junk)})
+    # lines as fgets delivers them: a NUL first (strlen 0), in the middle, CR / LF alone and in every order, at the buffer size
+    good = b'ab' * 32 + b'  f.bin'
+    for i, junk in enumerate((b'\x00', b'\x00\n', b'\x00abc\n', good + b'\n\x00' + good + b'\n', good + b'\n\x00\n' + good + b'\n', b'ab' * 32 + b'\x00 f.bin\n', good[:20] + b'\x00' + good[20:] + b'\n',
+                             b'\r', b'\r\n', b'\n\r', b'\n\n', b'\r\r\n', good + b'\r', good + b'\r\n', good + b'\n\r\n', b' ' * 70 + b'\n', b'\x00' * 1023, b'\x00' * 1024 + b'\n', b'a' * 1022 + b'\x00\n',
+                             b'\x00' + b'\n' * 5, b'\n' + b'\x00' * 3 + b'\n')):
+        S.append({'kind': 'args', 'tool': 'asconsum', 'argv': ['-c', 'sums.txt'], 'files': {'sums.txt': list(junk), 'f.bin': list(b'x')}, 'tag': 'checknul%d' % i})
     for n in (1, 255, 300, 5000):
         S.append({'kind': 'args', 'tool': 'asconsum', 'argv': ['-x', nm(n)], 'tag': 'sumname%d' % n})
     # a few full scenarios under the sanitizers
@@ -76,6 +82,19 @@ def run(c):
     for fl in fls:
         p = library_plan(c, maxs_of(fl))
         c.tv(p, fl, 'mem', tracecfg='TraceLite', max_cost=40.0, env={'ASAN_OPTIONS': 'detect_leaks=1:abort_on_error=0:exitcode=99:detect_stack_use_after_return=1'})
+    # the entropy back end on a scripted getrandom(): every sequence of up to three behaviours (short count of 1 / 10 / 31
+    # bytes, EINTR, EAGAIN, hard error, full) for every caller that owns a seed buffer
+    import itertools
+    p = Plan(); rng = c.rng
+    beh = ['4:' + hx(pattern(rng, 1, 'rand')), '4:' + hx(pattern(rng, 10, 'rand')), '4:' + hx(pattern(rng, 31, 'rand')), '2:' + hx(pattern(rng, 32, 'rand')), '3:' + hx(pattern(rng, 32, 'rand')), '0:', '1:' + hx(pattern(rng, 32, 'rand'))]
+    seqs = [s for k in (1, 2, 3) for s in itertools.product(beh, repeat=k)]
+    if not th: seqs = [s for s in seqs if len(s) < 3] + rng.sample([s for s in seqs if len(s) == 3], 40)
+    for s in seqs:
+        src = ','.join(s)
+        p.case(['prng.init obj=1 src=%s' % src, 'prng.fetch obj=1 n=8', 'prng.reseed obj=1', 'prng.free obj=1'], cost=0.3)
+        p.case(['prng.init obj=1 src=%s' % ','.join(['1:' + hx(pattern(rng, 32, 'rand'))] + list(s)), 'prng.reseed obj=1', 'prng.fetch obj=1 n=40', 'prng.free obj=1'], cost=0.3)
+        c.distinct([('getrandom', tuple(x.split(':')[0] + str(len(x)) for x in s))])
+    c.tv(p, 'san+sysrng', 'memsys', tracecfg='TraceLite', max_cost=40.0, env={'ASAN_OPTIONS': 'detect_leaks=1:abort_on_error=0:exitcode=99:detect_stack_use_after_return=1'})
     for kind, planf in (('cxx', c17.cxx_plan), ('nostl', c20.ba_plan)):
         drv, cmd, out = build_extra(kind, 'san')
         if drv: c.tv(planf(Sub(c)), 'san', 'mem' + kind, drv=drv, tracecfg='TraceLite', max_cost=40.0)
